@@ -44,6 +44,9 @@ def model_unfit(prog, cq):
                 return d.count(".") == 1
             return d.count(".") == 0          # a plain local or parameter; `helper.attr` is an object the model does not follow
         for n in walk_body(m.node):
+            if isinstance(n, ast.Call) and call_name(n) == "setattr" and n.args and dotted(n.args[0]) == "self" and not (
+                    len(n.args) > 1 and isinstance(n.args[1], ast.Constant)):
+                return "%s assigns fields of self by computed name (`%s`)" % (m.qual, unparse(n)[:50])
             if isinstance(n, ast.Assign):
                 for t in n.targets:
                     for tt in (t.elts if isinstance(t, (ast.Tuple, ast.List)) else [t]):
